@@ -263,7 +263,13 @@ def variant(s, rng, fresh, force=False):
     k = s[0] if s else None
     if k in ("union", "unite"):
         ms = [rec(x) for x in s[1]]
-        return [k, perm(ms) if p(0.6) else ms]
+        ms = perm(ms) if p(0.6) else ms
+        # a union built directly may repeat a member (MultiValuedValue does not de-duplicate); == ignores
+        # the multiplicity (set comparison), so the variant with a repeated member must stay equal
+        if ms and rng.random() < (0.5 if force else 0.2):
+            ms = ms + [ms[rng.randrange(len(ms))]]
+            k = "union"
+        return [k, ms]
     if k == "td" and len(s) == 4:
         entries = [[n, rec(x), req, ro] for n, x, req, ro in s[1]]
         return ["td", perm(entries) if p(0.7) else entries, None if s[2] is None else rec(s[2]), s[3]]
@@ -308,8 +314,13 @@ def gen_permutable(rng):
     elif r < 0.7:
         kw = [[n, gen_val(rng, 1)] for n in rng.sample(["k", "l", "m"], rng.randrange(2, 4))]
         core = ["callable", [gen_val(rng, 1) for _ in range(rng.randrange(2))], gen_val(rng, 1), kw]
-    else:
+    elif r < 0.85:
         core = ["unite", [gen_val(rng, 1) for _ in range(rng.randrange(2, 4))]]
+    else:
+        # a directly built union with a repeated member, possibly through a nested union
+        ms = [gen_val(rng, 1, allow_union=False) for _ in range(rng.randrange(2, 4))]
+        rep = ms[rng.randrange(len(ms))]
+        core = ["union", ms + [rep]] if rng.random() < 0.5 else ["union", [["union", ms], rep]]
     w = rng.random()
     if w < 0.5:
         return core
